@@ -13,7 +13,7 @@ RULE = (
     "exhaustive None / conforming / violating patterns over signatures with optional hints in parameter, tuple-element (every position), "
     "field and return position (<=3 positions), spelled `T | None`, Optional[T], `None | T`, Optional[Optional[T]]; unions with other "
     "alternatives in either order (`T | int`, `T | int | None`, `Union[int, T]`, `Union[None, float, T]`), Optional[tuple[...]] (its elements stay as optional as they are written) and unsupported base types for the decoration-time TypeError; presented as CTX, as function "
-    "calls and as NamedTuple / dataclass constructions. non-trivial = distinct line with at least one optional position"
+    "calls (also with the values as defaults the caller leaves out) and as NamedTuple / dataclass constructions. non-trivial = distinct line with at least one optional position"
 )
 
 SHAPES = [("a b", (2, 3), (2, 4)), ("a", (2,), (5,)), ("b 1", (3, 1), (3, 2))]
@@ -36,6 +36,8 @@ def cases(tier, rng, run):
                     vs.append("N" if p == "N" else f"T,0:float32,{'.'.join(map(str, good if p == 'ok' else bad))}")
                 line = f"CALL\tfunc:pos\t-\t\tP|x|S|{specs[0]}|{vs[0]}\tP|t|T|{specs[1]};{specs[2]}|U:{vs[1]};{vs[2]}\tR|S|{specs[3]}|{vs[3]}"
                 out.append(Case(line, "exh"))
+                if rng.random() < 0.15:
+                    out.append(Case(line.replace("\tP|", "\tPD|"), "exh-default"))
                 if rng.random() < 0.25:
                     out.append(Case(f"CALL\tnt:kw\t-\t\tP|x|S|{specs[0]}|{vs[0]}\tP|t|T|{specs[1]};{specs[2]}|U:{vs[1]};{vs[2]}", "exh-nt"))
                     out.append(Case(f"CALL\tdc:pos\t-\t\tP|x|S|{specs[0]}|{vs[0]}\tP|t|T|{specs[1]};{specs[2]}|U:{vs[1]};{vs[2]}", "exh-dc"))
@@ -65,6 +67,9 @@ def cases(tier, rng, run):
                         s.value = ("N",)
         out.append(Case(c.ctx_line(), "gen-ctx", {"ctx": c}))
         out.append(Case(c.call_line("func", "pos"), "gen-call", {"ctx": c}))
+        if rng.random() < 0.4:
+            # the same values as DEFAULTS that the caller leaves out (`mask: T = None` without `| None` is still not optional)
+            out.append(Case(c.call_line("func", rng.choice(["pos", "kw", "kwonly"]), omit=rng.randint(1, 4)), "gen-default", {"ctx": c}))
     return out
 
 
